@@ -307,13 +307,11 @@ def maxabs_of(eng, ver):
     eng.facts.add(z3.Implies(sz > 0, z3.And(z3.Select(ver.dom, kw), _abs(z3.Select(ver.val, kw)) == M)))
     ver.cache["maxabs"] = M
     ver.maxabs_at = kw
-    reg = getattr(eng, "maxabs_reg", None)
-    if reg is None:
-        reg = eng.maxabs_reg = {"vers": [], "keys": []}
+    reg = _mreg(eng)
     reg["vers"].append((ver, M, sz))
-    reg["keys"].append((ver.ksort, kw))
+    _mkey(eng, reg, ver.ksort, kw)
     for (k, v) in ver.picked:
-        reg["keys"].append((ver.ksort, k))
+        _mkey(eng, reg, ver.ksort, k)
     done = reg.setdefault("done", set())
     for (vr, Mv, szv) in reg["vers"]:
         for (ks, w) in reg["keys"]:
@@ -325,12 +323,36 @@ def maxabs_of(eng, ver):
     return M
 
 
+def _mreg(eng):
+    reg = getattr(eng, "maxabs_reg", None)
+    if reg is None:
+        reg = eng.maxabs_reg = {"vers": [], "keys": [], "hooks": []}
+    return reg
+
+
+def _mkey(eng, reg, ksort, k):
+    if any(ks == ksort and k.eq(x) for ks, x in reg["keys"]):
+        return
+    reg["keys"].append((ksort, k))
+    for h in list(reg["hooks"]):
+        h(ksort, k)
+
+
+def maxabs_hook(eng, h):
+    """h(ksort, key) is called for every witness key of a maximum, present and future (explicit instantiation of
+    quantified hypotheses at the keys the proofs about maxima need)"""
+    reg = _mreg(eng)
+    reg["hooks"].append(h)
+    for ks, k in list(reg["keys"]):
+        h(ks, k)
+
+
 def maxabs_note(eng, ksort, k):
     """a key the path is interested in (loop item, quantifier witness): instantiate the bound of every tracked maximum"""
     reg = getattr(eng, "maxabs_reg", None)
     if reg is None:
         return
-    reg["keys"].append((ksort, k))
+    _mkey(eng, reg, ksort, k)
     done = reg.setdefault("done", set())
     for (vr, Mv, szv) in reg["vers"]:
         key = (vr.n, k.get_id())
@@ -417,4 +439,138 @@ def keylabels_of(eng, ver):
         eng.facts.add(r == eng.facts.set_union(p, eng.facts.memset_of(eng.facts.key(ver.k))))
     elif ver.kind in ("pop", "put"):
         keylabels_of(eng, ver.parent)
+    # the labels of an item's key are among the labels of the keys (at the witness keys)
+    wit_hook(eng, "khooks", lambda k, ver=ver, r=r: eng.facts.add(
+        z3.Implies(z3.Select(ver.dom, k), eng.facts.set_subset(eng.facts.memset_of(k), r))))
     return r
+
+
+# ------------------------------------------------------------------ extremal folds for the temperature range (C15)
+# Quantified facts ("every item ...", "every variable ...") are instantiated at *witness* keys / labels: the skolem
+# witnesses of the extrema themselves, items the path knows to be present, and the first label of each witness key.
+ABSWITH = z3.Function("abswith", z3.ArraySort(T.Key, T.Bool), z3.ArraySort(T.Key, T.Real), T.Label, T.Real)
+
+
+def _wreg(eng):
+    reg = getattr(eng, "wit_reg", None)
+    if reg is None:
+        reg = eng.wit_reg = {"keys": [], "labels": [], "khooks": [], "lhooks": [], "klhooks": []}
+    return reg
+
+
+def wit_key(eng, k):
+    """register a witness key (sort Key) and its first label"""
+    reg = _wreg(eng)
+    if any(k.eq(x) for x in reg["keys"]):
+        return
+    reg["keys"].append(k)
+    eng.facts.key(k)
+    eng.facts.enable_sets()
+    head = k[0]
+    ms = eng.facts.memset_of(k)
+    eng.facts.add(z3.Implies(z3.Length(k) > 0, z3.And(T.memb(head, k), z3.Select(ms, head))))
+    for h in reg["khooks"]:
+        h(k)
+    for l in reg["labels"]:
+        for h in reg["klhooks"]:
+            h(k, l)
+    wit_label(eng, head)
+
+
+def wit_label(eng, l):
+    reg = _wreg(eng)
+    if any(l.eq(x) for x in reg["labels"]):
+        return
+    reg["labels"].append(l)
+    for h in reg["lhooks"]:
+        h(l)
+    for k in reg["keys"]:
+        for h in reg["klhooks"]:
+            h(k, l)
+
+
+def wit_hook(eng, kind, h):
+    reg = _wreg(eng)
+    reg[kind].append(h)
+    if kind == "khooks":
+        for k in list(reg["keys"]):
+            h(k)
+    elif kind == "lhooks":
+        for l in list(reg["labels"]):
+            h(l)
+    else:
+        for k in list(reg["keys"]):
+            for l in list(reg["labels"]):
+                h(k, l)
+
+
+def _known_keys(eng, ver):
+    for (k, v) in ver.picked:
+        wit_key(eng, k)
+    for (k, v, c) in getattr(ver, "maybe", ()):
+        wit_key(eng, k)
+
+
+def nonconst_witness(eng, ver):
+    """a dict with a non-constant key has one: skolem witness for the failure of allconst"""
+    if getattr(ver, "_ncw", None) is not None:
+        return ver._ncw
+    eng.nfresh += 1
+    w = z3.Const("nonconst_key_%d!%d" % (ver.n, eng.nfresh), T.Key)
+    ver._ncw = w
+    ac = fold(eng, ver, "allconst")
+    eng.facts.add(z3.Implies(z3.Not(ac), z3.And(z3.Select(ver.dom, w), z3.Length(w) > 0)))
+    wit_key(eng, w)
+    _known_keys(eng, ver)
+    # every registered key that is a non-constant item refutes allconst
+    wit_hook(eng, "khooks", lambda k, ver=ver, ac=ac: eng.facts.add(
+        z3.Implies(z3.And(z3.Select(ver.dom, k), z3.Length(k) > 0), z3.Not(ac))))
+    return w
+
+
+def minabs_nc_of(eng, ver):
+    """m = min of |v| over the items with a non-empty key (meaningful when there is one): m >= 0, attained by a
+    non-constant item when there is one, a lower bound of |v| for every non-constant item (at the witness keys)"""
+    if "minabsnc" in ver.cache:
+        return ver.cache["minabsnc"]
+    eng.nfresh += 1
+    m = z3.Real("minabsnc_%d!%d" % (ver.n, eng.nfresh))
+    kw = z3.Const("minabsnc_at_%d!%d" % (ver.n, eng.nfresh), T.Key)
+    ver.cache["minabsnc"] = m
+    ac = fold(eng, ver, "allconst")
+    eng.facts.add(m >= 0)
+    eng.facts.add(z3.Implies(z3.Not(ac), z3.And(z3.Select(ver.dom, kw), z3.Length(kw) > 0,
+                                                _abs(z3.Select(ver.val, kw)) == m)))
+    wit_key(eng, kw)
+    note_maybe(eng, ver, kw, z3.Select(ver.val, kw), z3.Not(ac))       # the all-folds of the dict hold for the witness
+    nonconst_witness(eng, ver)
+    wit_hook(eng, "khooks", lambda k, ver=ver, m=m: eng.facts.add(
+        z3.Implies(z3.And(z3.Select(ver.dom, k), z3.Length(k) > 0), _abs(z3.Select(ver.val, k)) >= m)))
+    return m
+
+
+def absw_max_of(eng, ver, mem, card):
+    """M = max over the labels v of the set (mem, card) of  abswith(v) = sum of |c| over the items whose key contains
+    v.  abswith(v) >= 0; abswith(v) >= |c| for every item whose key contains v (at witness key/label pairs);
+    M >= abswith(v) for every v of the set (at witness labels); attained by a member when the set is not empty."""
+    tag = ("abswmax", mem.get_id())
+    if tag in ver.cache:
+        return ver.cache[tag]
+    eng.nfresh += 1
+    M = z3.Real("abswmax_%d!%d" % (ver.n, eng.nfresh))
+    vw = z3.Const("abswmax_at_%d!%d" % (ver.n, eng.nfresh), T.Label)
+    ver.cache[tag] = M
+    aw = lambda l: ABSWITH(ver.dom, ver.val, l)
+    eng.facts.add(z3.Implies(card > 0, z3.And(z3.Select(mem, vw), aw(vw) == M)))
+    wit_label(eng, vw)
+    wit_hook(eng, "lhooks", lambda l: eng.facts.add(z3.And(aw(l) >= 0, z3.Implies(z3.Select(mem, l), aw(l) <= M))))
+    wit_hook(eng, "klhooks", lambda k, l: eng.facts.add(
+        z3.Implies(z3.And(z3.Select(ver.dom, k), T.memb(l, k)), aw(l) >= _abs(z3.Select(ver.val, k)))))
+    _known_keys(eng, ver)
+    return M
+
+
+def within_at_witnesses(eng, ver, arr, cond):
+    """under cond every key of ver has its labels in arr: instantiated at the witness keys (first label)"""
+    wit_hook(eng, "khooks", lambda k: eng.facts.add(
+        z3.Implies(z3.And(cond, z3.Select(ver.dom, k), z3.Length(k) > 0), z3.Select(arr, k[0]))))
